@@ -434,6 +434,11 @@ def cases(tier, seed, focus=None):
         m = rng.randint(1, 6)
         out.append({"clause": "pcgrad", "mode": "recorded", "rseed": rng.randrange(10**6),
                     "matrix": _mspec(rng, m, rng.randint(1, 8), PC_KINDS + ["nonconflict", "nonconflict", "zero"])})
+    rl = random.Random(18018000 + seed)
+    for _ in range(4 if thorough else 1):  # HUNDREDS of rows (python caches small ints only: identity tests on indices, ...)
+        out.append({"clause": "pcgrad", "mode": "recorded", "rseed": rl.randrange(10**6),
+                    "matrix": {"kind": "gauss", "m": rl.choice([270, 300]), "n": 16, "seed": rl.randrange(10**9), "scale": 1.0,
+                               "dtype": "float64"}})
     for _ in range(60 if thorough else 6):  # no conflict => plain sum, any order
         m = rng.randint(2, 5)
         out.append({"clause": "pcgrad", "mode": "given", "matrix": _mspec(rng, m, rng.randint(1, 8), ["nonconflict"]),
